@@ -60,9 +60,12 @@ import (
 //
 // Envelopes (evaluated at run time on ground truth; out-of-envelope cases are counted, not raised;
 // their witnesses are the corpus scenarios f-c17-*):
-//   E-HashStable   for every cron line of the JobConfig the library gives the same verdict for the
-//                  validator's hash id "" and for the JobConfig's namespaced name (finding F-C17-1:
-//                  it does not for H/n in a field whose minimum is 1, and for H(a-b)/n)
+//   E-HashStable   ONLY for JobConfigs admitted with an empty name (generateName: the final name, hence
+//                  the scheduler's hash id, is not known at admission): for every cron line the library
+//                  gives the same verdict for the hash id "" and for the object's key.  Named JobConfigs are
+//                  judged at full strength since fix d9dad79 (F-C17-1: the validator now re-parses with the
+//                  namespaced name; the library's verdict depends on the id for H/n in a field whose
+//                  minimum is 1 and for H(a-b)/n)
 //   E-DefaultTz    the effective default timezone of the dynamic configuration parses (F-C17-2)
 //   E-HashRange    no cron line contains a hash range H(a-b) with a > b, where day-of-week 7 counts as 0
 //                  (finding F-C17-3: the library accepts it and materialises a value outside the field's
@@ -641,8 +644,11 @@ func (w *valWorld) admitJC(jcIn *execution.JobConfig, update bool) (id string, o
 	}
 	inEnv := true
 	if !hashStable {
-		inEnv = false
-		w.c.Count("envelope-out.E-HashStable")
+		w.c.Count("hash-dependent-line.accepted")
+		if jc.Name == "" {
+			inEnv = false
+			w.c.Count("envelope-out.E-HashStable(generateName)")
+		}
 	}
 	usesDefaultTz := jc.Spec.Schedule != nil && jc.Spec.Schedule.Cron != nil && jc.Spec.Schedule.Cron.Timezone == "" && !jc.Spec.Schedule.Disabled
 	if usesDefaultTz && !w.defaultTzOK {
@@ -661,7 +667,11 @@ func (w *valWorld) admitJC(jcIn *execution.JobConfig, update bool) (id string, o
 		enabled: jc.Spec.Schedule != nil && !jc.Spec.Schedule.Disabled && jc.Spec.Schedule.Cron != nil}
 	w.accepted = append(w.accepted, a)
 	w.monitorLoadable([]*acceptedJC{a})
-	w.monitorInstantiable(a)
+	if jc.Name != "" {
+		w.monitorInstantiable(a)
+	} else {
+		w.c.Count("jobconfig.accepted-with-generateName")
+	}
 	return id, out
 }
 
@@ -721,7 +731,7 @@ func (w *valWorld) monitorLoadable(as []*acceptedJC) {
 			w.c.Count("envelope-out.load-failed-on-accepted")
 			if w.c.curScenario != "" {
 				// the known-finding scenarios raise their violation here (matched by scenario name in bin/check)
-				w.c.Violate("C17", "accepted-loadable", "cronschedule.New returned %s on accepted JobConfig(s) %v (outside the envelope: hash-dependent cron line or unparsable default timezone)", out, ids)
+				w.c.Violate("C17", "accepted-loadable", "cronschedule.New returned %s on accepted JobConfig(s) %v (outside the envelope: unparsable default timezone, or hash-dependent cron line of an unnamed JobConfig)", out, ids)
 			}
 		}
 		return
@@ -1386,6 +1396,10 @@ func (w *valWorld) genJobConfig(k int, bad bool) *execution.JobConfig {
 		if bad || rng.Intn(4) == 0 {
 			jc.Name = nameOfLen(rng, vpick(rng, 50, 51, 63))
 		}
+	}
+	if rng.Intn(30) == 0 {
+		// generateName: the object reaches admission without a name
+		jc.GenerateName, jc.Name = jc.Name+"-", ""
 	}
 	jc.Spec.Template.Spec = w.genTemplate(bad)
 	if rng.Intn(4) == 0 {
